@@ -33,6 +33,10 @@ Pairs == {y \in Nodes \X AllNodes : y[1] # y[2]}
 GraphOps ==
     {Np(n, Batch(<<VPt(n, ts)>>, "")) : n \in AllNodes, ts \in 1..MaxTs}
     \cup {Np(n, Batch(<<VPt(n, 1), NaNPt>>, "")) : n \in Nodes}
+    \* both spellings of key "0" in one batch (one identity: the newer one is stored, the hash follows)
+    \cup {Np(n, Batch(<<Pt("v", "", 2, 10 * NodeIdx(n) + 2, 0, ""), Pt("v", "0", 3, 10 * NodeIdx(n) + 3, 0, "")>>, "")) : n \in Nodes}
+    \cup {Np(n, Batch(<<Pt("v", "0", 3, 10 * NodeIdx(n) + 3, 0, ""), Pt("v", "", 2, 10 * NodeIdx(n) + 2, 0, "")>>, "")) : n \in Nodes}
+    \cup {Ep(y[1], y[2], Batch(<<Pt("ev", "", 2, 100 + 10 * NodeIdx(y[1]) + 2, 0, ""), Pt("ev", "0", 3, 100 + 10 * NodeIdx(y[1]) + 3, 0, "")>>, "")) : y \in Pairs}
     \* a NaN that a newer point of the same identity in the same batch supersedes: still refused
     \cup {Np(n, Batch(<<NaNPt, VPt(n, 2)>>, "")) : n \in Nodes}
     \cup {Ep(y[1], y[2], Batch(<<NaNEPt, EPt(y[1], y[2], 2)>>, "t")) : y \in Pairs}
@@ -48,7 +52,10 @@ GraphOps ==
 \* collision ("xb","") / ("x","b") and the two spellings of key "0"; one
 \* timestamp carries one fixed point (distinct timestamps per identity)
 RawKey(nk, ts) == IF nk = "0" THEN (IF ts % 2 = 1 THEN "" ELSE "0") ELSE nk
-LPt(type, nk, ts) == Pt(type, RawKey(nk, ts), ts, ts, IF ts % 3 = 0 THEN 1 ELSE 0, IF ts % 2 = 0 THEN "o" ELSE "")
+\* tombstone counts neither grow nor shrink with the timestamp: 2, 0, 1, 2, 0, 1, ... (the newest
+\* point wins with ALL of its fields, also when an older one carried a larger count)
+LTomb(ts) == CASE ts % 3 = 1 -> 2 [] ts % 3 = 2 -> 0 [] OTHER -> 1
+LPt(type, nk, ts) == Pt(type, RawKey(nk, ts), ts, ts, LTomb(ts), IF ts % 2 = 0 THEN "o" ELSE "")
 \* ("x","b0") and ("xb","0") also concatenate alike (after key normalisation)
 LwwIdents == {<<"x", "0">>, <<"x", "b">>, <<"xb", "0">>, <<"x", "b0">>}
 LwwUniverse == {LPt(i[1], i[2], ts) : i \in LwwIdents, ts \in 1..MaxTs}
